@@ -242,3 +242,132 @@ Print Assumptions C11_failed_fit_prefix_refuted.
 Print Assumptions C11_failed_model_fit_prefix_refuted.
 Print Assumptions C11_backward_failure_refuted.
 Print Assumptions C11_alias_refuted.
+
+(* ================================================================================================================
+   The R-vs-Q instance gap, closed by proof (base/NumHom.v, proofs/QR_bridge_C11.v).
+   The theorems of Section C11 hold for EVERY choice of carrier types and kernels, hence for the Q kernels of
+   model/TrainSemQ.v that the correspondence run (run/RunC11.v, chk_hist) executes, and for the same kernels over the reals
+   ([acc0F] ... [fwdF] of QR_bridge_C11.v at F := R: Ridge accumulation and solve, the default-buffer learner, RLS / LMS --
+   the kernels of TrainSemQ.v written once over [Num F]; at F := Q with Gauss-Jordan they are TrainSemQ's, C11_Qkernels_are_generic).
+   A morphism of kernels is a simulation of the whole state machine (C11_kernel_morphism_simulates, no numbers involved), and
+   the entry-wise embedding [Q2R] is such a morphism.  So: run any operation / history at Q, embed node by node = run it at R
+   on the embedded store and embedded operations -- same outcome (Done / Rejected / FailedPartial / FailedBackward), same
+   flags, buffers, _X/_Y lists and aliasing, embedded learned parameters; the [targets] are the same.
+   Only hypothesis, for the operations that solve a linear system (Ridge backward in fit / Model.fit): the real solver is
+   related to the Gauss-Jordan routine LA.qsolve ([related_solvers]: fails on the same systems, embedded solution otherwise).
+   That relation is what stays trusted (LA.qsolve's soundness is not proved here).  partial_fit, train, run, freeze need nothing. *)
+From Coq Require Import Reals Qreals.
+From RV Require Import base.NumHom proofs.QR_bridge_C04 proofs.QR_bridge_C10 proofs.QR_bridge_C11 run.RunC11.
+
+(* the generic kernels at Q, with Gauss-Jordan, are the kernels of model/TrainSemQ.v *)
+Theorem C11_Qkernels_are_generic :
+  (forall p, acc0Q p = acc0F (fx2F p)) /\ (forall p a x y, acc_stepQ p a x y = acc_stepF (fx2F p) a x y) /\
+  (forall p a, bk_bufQ p a = bk_bufF qsolve (fx2F p) a) /\ (forall p X Y, bk_defQ p X Y = bk_defF (fx2F p) X Y) /\
+  (forall p l s x y, train_fnQ p l s x y = train_fnF (fx2F p) l s x y) /\ (forall p l s x, fwdQ p l s x = fwdF (fx2F p) l s x).
+Proof. exact kernelsQ_are_kernelsF. Qed.
+Print Assumptions C11_Qkernels_are_generic.
+
+(* Part A, number-free: maps of the five carriers that commute with the six kernels commute with one [step] (store and
+   outcome), for every operation and every clean-up configuration *)
+Theorem C11_kernel_morphism_simulates (P1 L1 St1 Row1 A1 P2 L2 St2 Row2 A2 : Type)
+    (acc0_1 : P1 -> A1) (acc_step_1 : P1 -> A1 -> list Row1 -> option (list Row1) -> A1) (bk_buf_1 : P1 -> A1 -> option L1)
+    (bk_def_1 : P1 -> list (list Row1) -> list (list Row1) -> option L1)
+    (train_fn_1 : P1 -> L1 -> St1 -> list Row1 -> option (list Row1) -> L1 * St1) (fwd_1 : P1 -> L1 -> St1 -> list Row1 -> St1)
+    (acc0_2 : P2 -> A2) (acc_step_2 : P2 -> A2 -> list Row2 -> option (list Row2) -> A2) (bk_buf_2 : P2 -> A2 -> option L2)
+    (bk_def_2 : P2 -> list (list Row2) -> list (list Row2) -> option L2)
+    (train_fn_2 : P2 -> L2 -> St2 -> list Row2 -> option (list Row2) -> L2 * St2) (fwd_2 : P2 -> L2 -> St2 -> list Row2 -> St2)
+    (eP : P1 -> P2) (eL : L1 -> L2) (eS : St1 -> St2) (eR : Row1 -> Row2) (eA : A1 -> A2) :
+  (forall p, eA (acc0_1 p) = acc0_2 (eP p)) ->
+  (forall p a x y, eA (acc_step_1 p a x y) = acc_step_2 (eP p) (eA a) (map eR x) (option_map (map eR) y)) ->
+  (forall p a, option_map eL (bk_buf_1 p a) = bk_buf_2 (eP p) (eA a)) ->
+  (forall p X Y, option_map eL (bk_def_1 p X Y) = bk_def_2 (eP p) (map (map eR) X) (map (map eR) Y)) ->
+  (forall p l s x y, (eL (fst (train_fn_1 p l s x y)), eS (snd (train_fn_1 p l s x y)))
+                     = train_fn_2 (eP p) (eL l) (eS s) (map eR x) (option_map (map eR) y)) ->
+  (forall p l s x, eS (fwd_1 p l s x) = fwd_2 (eP p) (eL l) (eS s) (map eR x)) ->
+  forall (c : cfg) (st : list (node P1 L1 St1 Row1 A1)) (o : op Row1),
+    (map (enode eP eL eS eR eA) (fst (step acc0_1 acc_step_1 bk_buf_1 bk_def_1 train_fn_1 fwd_1 c st o)),
+     snd (step acc0_1 acc_step_1 bk_buf_1 bk_def_1 train_fn_1 fwd_1 c st o))
+    = step acc0_2 acc_step_2 bk_buf_2 bk_def_2 train_fn_2 fwd_2 c (map (enode eP eL eS eR eA) st) (eop eR o).
+Proof. intros; apply sim_step; assumption. Qed.
+Print Assumptions C11_kernel_morphism_simulates.
+
+(* one operation of the Q machine: partial_fit, fit, train, run, freeze, Model.fit, Model.train; every outcome *)
+Theorem C11_Qstep_embeds (solveR : list (list R) -> list (list R) -> option (list (list R))) (c : cfg) (st : list nodeQ) (o : opQ) :
+  related_solvers solveR ->
+  (map node2r (fst (stepQ c st o)), snd (stepQ c st o)) = stepF solveR c (map node2r st) (op2r o).
+Proof. exact (Qstep_embeds solveR c st o). Qed.
+Print Assumptions C11_Qstep_embeds.
+
+(* whole histories: the final store, and the store and outcome after every operation *)
+Theorem C11_Qhistory_embeds (solveR : list (list R) -> list (list R) -> option (list (list R))) (c : cfg) (ops : list opQ) (st : list nodeQ) :
+  related_solvers solveR ->
+  map node2r (run_opsQ c st ops) = run_opsF solveR c (map node2r st) (map op2r ops) /\
+  map (fun r => (map node2r (fst r), snd r)) (trace acc0Q acc_stepQ bk_bufQ bk_defQ train_fnQ fwdQ c st ops)
+  = traceF solveR c (map node2r st) (map op2r ops).
+Proof. intros Hs. split; [exact (Qrun_ops_embeds solveR c ops st Hs) | exact (Qtrace_embeds solveR c ops st Hs)]. Qed.
+Print Assumptions C11_Qhistory_embeds.
+
+(* the training targets of an operation are the same on both sides *)
+Theorem C11_Qtargets_embed (st : list nodeQ) (o : opQ) (i : nat) : targets (map node2r st) (op2r o) i = targets st o i.
+Proof. exact (Qtargets_embed st o i). Qed.
+Print Assumptions C11_Qtargets_embed.
+
+(* Node.fit on a single node (accumulation, rejection of a short sequence, solve, the clean-ups) *)
+Theorem C11_Qfit_embeds (solveR : list (list R) -> list (list R) -> option (list (list R))) (c : cfg) (w : nat) (n : nodeQ)
+        (seqs : option (list (qm * option qm))) :
+  related_solvers solveR ->
+  (node2r (fst (fitQ c w n seqs)), snd (fitQ c w n seqs)) = fitF solveR c w (node2r n) (option_map (map D2r) seqs).
+Proof. exact (Qfit_node_embeds solveR c w n seqs). Qed.
+Print Assumptions C11_Qfit_embeds.
+
+(* no linear solve: partial_fit (accumulation and rejection), the online train (RLS / LMS loop), run -- no hypothesis at all *)
+Theorem C11_Qsolverfree_embed (w : nat) (n : nodeQ) (seqs : list (qm * option qm)) (d : qm * option qm) (x : qm) :
+  (node2r (fst (partial_fit acc0Q acc_stepQ w n seqs)), snd (partial_fit acc0Q acc_stepQ w n seqs))
+    = partial_fitF w (node2r n) (map D2r seqs) /\
+  (node2r (fst (train train_fnQ n d)), snd (train train_fnQ n d)) = trainF (node2r n) (D2r d) /\
+  node2r (run fwdQ n x) = runF (node2r n) (qm2r x).
+Proof. exact (Qsolverfree_embed w n seqs d x). Qed.
+Print Assumptions C11_Qsolverfree_embed.
+
+(* the nodes the harness starts from (zero readouts, P = I/alpha for RLS) *)
+Theorem C11_Qfresh_embeds (k : kind) (h : hyp) : node2r (freshQ k h) = freshF k (hyp2r h).
+Proof. exact (Qfresh_embeds k h). Qed.
+Print Assumptions C11_Qfresh_embeds.
+
+(* ---- the verdict of the correspondence runner, read at R ----
+   [chk_hist] (run/RunC11.v) is the boolean evaluated at Q by vm_compute for every recorded history.  [hist_close] is the same
+   walk performed with the R machine ([stepF solveR HEAD]) from the embedded store on the embedded operations: after every
+   operation the observed outcome code, for every node the number-free observations ([struct_ok]: no fixed array changed, a
+   learned array changed only on a target, buffer count, aliasing, lengths of _X / _Y, fitted, trainable) and the observed
+   Wout / bias within the real inequality |m - o| <= 1e-9 * max(1,|m|) ([mrclose] / [vrclose], base/NumHom.v). *)
+Theorem C11_chk_hist_is_about_R_model (solveR : list (list R) -> list (list R) -> option (list (list R))) :
+  related_solvers solveR ->
+  forall (h : list (opQ * (nat * list nobs))) (st : list nodeQ),
+  chk_hist st h = true -> hist_close solveR (map node2r st) (hist2r h).
+Proof. exact (chk_hist_is_about_R_model solveR). Qed.
+Print Assumptions C11_chk_hist_is_about_R_model.
+
+(* non-vacuity: the R machine trains an RLS readout (bias, 2 inputs, 1 output, alpha = 1/2) on two samples and ends in
+   exactly the embedded node of the Q run; and a history on which the runner answers true *)
+Example C11_Qtrain_example :
+  trainF (freshF KOnline (hyp2r (mkHyp true 0 2 1 true (1#2)))) (D2r ex_d)
+  = (node2r (mkNode KOnline (mkHyp true 0 2 1 true (1#2), 0)
+               {| Wout := [[(18#155)%Q]; [(-331#930)%Q]]; bias := [(193#930)%Q];
+                  Pm := [[(286#465)%Q; (-88#155)%Q; (-52#465)%Q]; [(-88#155)%Q; (272#155)%Q; (16#155)%Q];
+                         [(-52#465)%Q; (16#155)%Q; (94#465)%Q]]; cursor := 0 |} 2 true true None [] [] false), Done).
+Proof. exact Qtrain_example. Qed.
+(* a failure outcome at R: the second sequence is not longer than the warm-up; the first one has been accumulated *)
+Example C11_Qpartial_fit_reject_example :
+  snd (partial_fitF 1 (freshF KBuf (hyp2r (mkHyp true (1#2) 2 1 false 0))) (map D2r ex_bad)) = FailedPartial /\
+  n_buffers (fst (partial_fitF 1 (freshF KBuf (hyp2r (mkHyp true (1#2) 2 1 false 0))) (map D2r ex_bad)))
+  = Some (acc2r ([[1%Q; 3%Q; 4%Q]; [3%Q; 9%Q; 12%Q]; [4%Q; 12%Q; 16%Q]], [[2%Q; 6%Q; 8%Q]])).
+Proof. exact Qpartial_fit_reject_example. Qed.
+Example C11_chk_hist_example :
+  chk_hist [nd_rls true (1#2) 2 1]
+    [(OTrain 0 ex_d, (0, [mkObs false true 0 false 0 0 true true (Some ([[(18#155)%Q]; [(-331#930)%Q]], [(193#930)%Q]))]));
+     (OFreeze 0 false, (0, [mkObs false false 0 false 0 0 true false None]))] = true.
+Proof. exact chk_hist_example. Qed.
+
+(* the existing theorems of this file do not depend on the reals: re-printed after the import *)
+Print Assumptions C11_session_isolated.
+Print Assumptions C11_alias_refuted.
